@@ -64,7 +64,10 @@ func (k handlerKind) window() int {
 type assignment struct {
 	pairs     map[[2]int]bool // (validator, slot); slot = 0 for sync committee (every slot of the period)
 	committee map[int]bool
-	dirty     bool
+	dirty     bool // a reorg / indices-change notice arrived after this fetch
+	// refetchFailed: after that notice a re-fetch of this epoch/period was attempted and failed.
+	// Only used to split the "excused" outcomes in the histogram; it never makes a verdict.
+	refetchFailed bool
 }
 
 func (a *assignment) has(k handlerKind, v, slot int) bool {
@@ -127,10 +130,19 @@ func (m *model) dump() string {
 			cs = append(cs, v)
 		}
 		sort.Ints(cs)
-		fmt.Fprintf(&b, "u%d%v c%v d%t;", u, ps, cs, a.dirty)
+		fmt.Fprintf(&b, "u%d%v c%v d%t", u, ps, cs, a.dirty)
+		if a.refetchFailed {
+			b.WriteString(" refetch-failed")
+		}
+		b.WriteString(";")
 	}
 	return b.String()
 }
+
+// labelDropped: the handler dropped an assignment on a notice and has not tried to fetch it again
+// up to and including the duty's tick. Excused by the weakest reading of "exactly once" (DESIGN);
+// counted, and one trace per handler is kept in the evidence as an observation.
+const labelDropped = "not-dispatched/notice-since-fetch,no-re-fetch-attempted(excused-by-weakest-reading)"
 
 type violation struct {
 	clause string
@@ -162,6 +174,9 @@ func (m *model) judge(isTick bool, slot int, log []rec) (*violation, []string) {
 		case recFetch:
 			if !r.ok {
 				labels = append(labels, "fetch-failed")
+				if a := m.fetched[k.unitOfFetch(r.epoch)]; a != nil && a.dirty {
+					a.refetchFailed = true
+				}
 				continue
 			}
 			a := m.applyFetch(r)
@@ -255,10 +270,14 @@ func (m *model) judge(isTick bool, slot int, log []rec) (*violation, []string) {
 					labels = append(labels, "dispatched/then-dropped-by-refetch-in-tick")
 				case obligated:
 					fail("missed-dispatch", "%s duty of validator %d at slot %d not dispatched although its assignment was fetched before the tick and no reorg/indices notice arrived since", ro, v, slot)
-				case snap.dirty:
-					labels = append(labels, "not-dispatched/notice-since-fetch-without-refetch(excused)")
-				default:
+				case !confirmed:
 					labels = append(labels, "not-dispatched/dropped-by-refetch-in-tick")
+				case len(inTick) > 0:
+					labels = append(labels, "not-dispatched/notice-since-fetch,re-fetched-after-execution-in-this-tick(excused)")
+				case snap.refetchFailed:
+					labels = append(labels, "not-dispatched/notice-since-fetch,re-fetch-failed(excused)")
+				default:
+					labels = append(labels, labelDropped)
 				}
 			}
 		}
